@@ -295,5 +295,19 @@ impl GenericsAnalyzer {
 fn extract_trait_bounds(
     bounds: &syn::punctuated::Punctuated<syn::TypeParamBound, syn::token::Plus>,
 ) -> Vec<syn::TypeParamBound> {
-    bounds.iter().cloned().collect()
+    bounds
+        .iter()
+        // `?Sized` relaxes a default; it is not a requirement on the implementing type
+        // (and `Self: ?Sized` is not accepted in a where clause)
+        .filter(|bound| {
+            !matches!(
+                bound,
+                syn::TypeParamBound::Trait(syn::TraitBound {
+                    modifier: syn::TraitBoundModifier::Maybe(_),
+                    ..
+                })
+            )
+        })
+        .cloned()
+        .collect()
 }
